@@ -34,6 +34,8 @@ theorem src_checksum_stanag (buff : Bytes) :
   unfold Gen.Src.PES.checksum_stanag Model.PES.checksum_stanag
   have h := stanag_fold [] buff 0
   simp only [List.nil_append, List.length_nil, Int.zero_add] at h
+  -- a `sum(… for i in range(len(buff)))` is the same fold as the accumulating `for` loop
+  try simp only [Py.sum, List.foldl_map]
   simp only [Py.len, range_eq, h]
   exact pymod_natCast_lit _ _
 
@@ -65,6 +67,7 @@ theorem src_ip_calc_checksum (pkt : Bytes) :
 theorem src_get_checksum_buf (buf : Bytes) :
     Gen.Src.Chapter11.get_checksum_buf buf = (Model.Ch11.getChecksumBuf buf).map Int.ofNat := by
   unfold Gen.Src.Chapter11.get_checksum_buf Model.Ch11.getChecksumBuf
+  unfold_src_helpers          -- a private helper the summation may have been moved into
   have hc : (pymod (Py.len buf) 2 ≠ 0) ↔ (buf.length % 2 ≠ 0) := by
     simp only [Py.len, pymod_natCast_lit]; omega
   have hn : Int.toNat (floordiv (Py.len buf) 2) = buf.length / 2 := by
@@ -85,6 +88,7 @@ theorem src_get_checksum_buf (buf : Bytes) :
 theorem src_get_checksum_byte_buf (buf : Bytes) :
     Gen.Src.Chapter11.get_checksum_byte_buf buf = (Model.Ch11.getChecksumByteBuf buf).map Int.ofNat := by
   unfold Gen.Src.Chapter11.get_checksum_byte_buf Model.Ch11.getChecksumByteBuf
+  unfold_src_helpers
   have hn : Int.toNat (Py.len buf) = buf.length := rfl
   simp only [hn, structUnpackI_eq, Gen.Ch11.cksum_byte_buf_fmt0]
   cases structUnpack ⟨false, List.replicate buf.length Code.u8⟩ buf with
